@@ -65,6 +65,12 @@ func RunFileSync(remote string, srcPath string, dstPath string, stopCh chan stru
 	}
 	if remote == "" {
 		log.Printf("copy local :%v to %v\n", srcPath, dstPath)
+		// cp writes an existing destination file in place, and the files already there may be
+		// hard links shared with an older checkpoint or with the running db (reused checkpoint).
+		// Unlink what the copy is going to write first, rsync does that by itself.
+		if fi, err := os.Stat(dstPath); err == nil && fi.IsDir() {
+			os.RemoveAll(filepath.Join(dstPath, filepath.Base(srcPath)))
+		}
 		cmd = exec.Command("cp", "-rp", srcPath, dstPath)
 	} else {
 		log.Printf("copy from remote :%v/%v to local: %v\n", remote, srcPath, dstPath)
